@@ -567,6 +567,14 @@ def rule_update_guard(ctx):
     update_guard(ctx, "C19")
 
 
+def rule_snapshot_fields(ctx):
+    """`running == false` promises that the snapshot's pattern is the matcher's current one and its count / matches are
+    those of the last run: Snapshot::update must copy every field from the worker on every path (a copy that is skipped
+    under some flag leaves a field of an older run next to fields of the new one).  Shared with C12."""
+    from props.c12 import rule_snapshot_fields as r
+    r(ctx)
+
+
 def rules(ctx):
     ctx.run_rule("C19.update-guard", rule_update_guard)
     ctx.run_rule("C19.changed-guards-mutation", rule_changed_guards_mutation)
@@ -574,3 +582,4 @@ def rules(ctx):
     ctx.run_rule("C19.running-formula", rule_running_formula)
     ctx.run_rule("C19.status-lattice", rule_status_lattice)
     ctx.run_rule("C19.pattern-handover", rule_pattern_handover)
+    ctx.run_rule("C19.snapshot-fields", rule_snapshot_fields)
